@@ -48,7 +48,7 @@ def build(repo, canary=None):
     top = rsx.add_spec(top, TOP_SPEC)
     rec = rsx.add_spec(rec, REC_SPEC)
     rec = rsx.add_loop_spec(rec, 0, LOOP_INV, kind="for")
-    rec = rsx.insert_before_line(rec, "if size % 2", GHOST, expect_count=1)
+    rec = rsx.insert_after_line(rec, "permutations(values, f, size - 1)?;", GHOST, expect_count=1)
     spec = open(os.path.join(HERE, "..", "contracts", "perm", "spec.rs")).read()
     if canary == "swap_spec_wrong":
         # vacuity canary: a swap that overwrites instead of exchanging must make the proof FAIL
